@@ -30,7 +30,7 @@ check(
     'model_checking',
     'Every sequence of convergence answers (and up to 1-2 forced flags) that the real controller_nonMPI can consume is enumerated '
     'for P<=4, K<=4, L<=3, nsweeps<=2, every predictor and both coupling modes; the protocol invariants (DONE prefix, frozen after DONE, '
-    'stage lock-step, tag/sender/value of every receive, termination, callback grammar, niter model) are evaluated on every execution.',
+    'stage lock-step, tag/sender/value of every receive, every transfer consumed exactly once (own record of which successor still listens), termination, callback grammar, niter model) are evaluated on every execution; also over two blocks, partially filled blocks and a second run() on the same controller.',
     'Trusted: the scripted sweeper subclass only overwrites the residual value on the finest level in IT_CHECK; everything else is the code in /repo. Bounds are those listed in evidence.bounds_completed.',
     'stateless exhaustive choice-tree exploration of the real controller (replay-based DFS), reference-model comparison per execution',
     'E1',
@@ -41,11 +41,11 @@ check(
 check(
     'C03',
     'model_checking',
-    'Truth: on every configuration of a deviation ball (radius 1 quick / 2 thorough, 15 dimensions, three bases) every residual the real run reports at '
+    'Truth: on every configuration of a deviation ball (radius 1 quick / 2 thorough, 15 dimensions, five bases incl. three levels with two sweeps per visit and a single-level multi-step LOBATTO block) every residual the real run reports at '
     'post_sweep / post_iteration / post_step is recomputed from the node values held at that moment with an independent Q and operator. Soundness: every '
     'sequence of residual answers (K in 0..4, P<=3, L<=2) plus <=1-2 forced flags is enumerated on the real controller and the stopping rule, budget and '
-    'logged iteration count are compared with a reference model on each execution.',
-    'Trusted: numpy polynomial integration for Q; the scripted sweeper only overwrites the residual value in IT_CHECK on the finest level. imex_1st_order_mass not covered (needs FEniCS).',
+    'logged iteration count are compared with a reference model on each execution (also over two and three blocks, a second run() on the same controller, not-a-number answers, several sweeps per iteration). Part M: the mass-matrix sweeper with base_transfer_mass on 1..3 levels of a numpy stand-in problem.',
+    'Trusted: numpy polynomial integration for Q; the scripted sweeper only overwrites the residual value in IT_CHECK on the finest level. imex_1st_order_mass is covered on a numpy stand-in problem only (the shipped users need FEniCS).',
     'exhaustive configuration-ball enumeration with independent defect oracle + stateless exhaustive choice-tree exploration against a reference model',
     'E1',
     'DESIGN.md section 2 C03',
@@ -65,7 +65,7 @@ check(
     'C08',
     'model_checking',
     'The real controller_MPI, generic_implicit_MPI / imex_1st_order_MPI, base_transfer_MPI and the MPI flavours of the convergence controllers run on a '
-    'simulated mpi4py whose scheduler is driven by the explorer: the canonical schedule on a configuration ball under 2-4 completion modes, every rejection '
+    'simulated mpi4py whose scheduler is driven by the explorer: the canonical schedule on configuration balls (time-parallel, node-parallel, space-time grids; residual type x quadrature type cross) under 2-4 completion modes, every rejection '
     'script with <=1-3 rejections, and every schedule with <=1 (thorough: <=2 on the smallest) deviations on the base configurations; each execution is '
     'compared with the serial counterpart and checked for deadlock, unmatched receives, collective mismatch and send buffers modified before completion.',
     'Trusted: the simulator (vf/engine/simmpi.py) models the MPI semantics stated in its docstring; ranks are threads of one interpreter. Real network timing, NCCL, MPI-IO and the interrupt-based iteration estimator are not covered.',
@@ -79,7 +79,7 @@ check(
     'Every script of error estimates (6-letter alphabet around the tolerance; quick: 4 letters) and direct restart requests with at most 2-4 non-default answers is run through the real '
     'Adaptivity / BasicRestarting / SpreadStepSizes / limiter controllers for every configuration of a ball (P, max_restarts, restart_from_first_step, crash, Tend distance, '
     'limiter settings, K); restart position, one step size per block, retry budget, acceptance below tolerance, proposal formula with clipping and smaller retry are checked on each.',
-    'Trusted: scripted estimator = real Adaptivity with only get_local_error_estimate replaced; lenient (block-level) reading of the retry budget. Real adaptive estimators on real problems are not covered by this check.',
+    'Trusted: scripted estimator = real Adaptivity with only get_local_error_estimate replaced; lenient (block-level) reading of the retry budget. Real adaptive runs (embedded, RK, polynomial, extrapolation estimators; avoid_restarts) are observed without a scripted environment on the same clauses; nonconvergence rejections of the converged-collocation family and detectors behind BasicRestarting in the control order have their own plans.',
     'deviation-bounded exhaustive exploration of environment scripts on the real controller, clause checks on the recorded history',
     'E1',
     'DESIGN.md section 2 C09',
@@ -98,7 +98,7 @@ check(
 check(
     'C19',
     'model_checking',
-    'Every operation sequence up to depth 3 (thorough 4) over {new controller of 7-9 configurations, run, split run on the same / a fresh controller at each block boundary} with at most two live '
+    'Every operation sequence up to depth 3 (thorough 4) over {new controller of 13-16 configurations (also from one shared description / controller_params dictionary), add_hook, run, short run, split run on the same / a fresh controller at each block boundary} with at most two live '
     'controllers is executed; the digest (solution bits and every non-timing statistics entry) of each logical run must equal that of the same run alone in a fresh subprocess.',
     'Trusted: sha1 digests; continuation time taken from the last logged step. Re-run / split clauses only for fixed-step configurations as the property says.',
     'breadth-first exhaustive enumeration of operation sequences, differential oracle against a fresh process',
@@ -109,7 +109,7 @@ check(
     'C17',
     'exploration',
     'Every operator of the Chebyshev-T / ultraspherical / Fourier helpers is applied to every basis vector for N in 1..64 (quick: a subset), derivative orders 1..3, four intervals where the operator carries the map, '
-    'and compared with exact polynomial / Fourier calculus; all 9 pairs and 27 triples of bases for the N-D operators.',
+    'and compared with exact polynomial / Fourier calculus; all 9 pairs and 27 triples of bases for the N-D operators, twin axes, per-axis transforms, very long and very short intervals.',
     'Trusted: numpy.polynomial.chebyshev and exact Fraction power-basis arithmetic. GPU, FFTW and mpi4py-fft back ends are out of reach.',
     'basis-exhaustive enumeration over a complete lattice against an exact-arithmetic reference',
     'E2',
@@ -152,7 +152,7 @@ check(
     'C04',
     'exploration',
     'For every node family x quadrature type x M x preconditioner name x iteration count k x end-point mode the real one-step map is evaluated on a circle of complex z (lambda vector) and all Taylor coefficients are extracted by DFT and compared with 1/j! up to the order the '
-    'oracle iteration delivers (>= min(k,p) for first-order-consistent preconditioners); converged runs against the collocation stability function; every Runge-Kutta class against its documented order and embedded order.',
+    'oracle iteration delivers (>= min(k,p) for first-order-consistent preconditioners); converged runs against the collocation stability function; every Runge-Kutta class against its documented order and embedded order, the latter also against the order the AdaptivityRK instance of a real controller holds; a preconditioner switched on an existing sweeper against the directly built sweeper.',
     'Trusted: vf/oracle/sdc.py; Cauchy-estimate tolerances. A polynomial identity in z up to the claimed degree is decided by its coefficients.',
     'exhaustive lattice enumeration; all Taylor coefficients of the real step function against an exact reference',
     'E2',
@@ -162,7 +162,7 @@ check(
     'C05',
     'exploration',
     'All 6 node types x 4 quadrature types x M 1..8 (thorough 1..16) x 8 intervals: every weight, Qmat and Smat entry against exact Lagrange integrals (mpmath, 60 digits) through the reported nodes, moments up to the reported order, end-point flags, '
-    'padding, cumulative-sum identities, node spacings and affine covariance.',
+    'padding, cumulative-sum identities, node spacings and affine covariance; the same for rules held by sweepers that were given the interval (alone, and as middle level of a three-level step), construction-history and in-place re-initialisation clauses.',
     'Trusted: mpmath. Tolerances are rounding of representable data (node ulp sensitivities and the Lebesgue function of the reported nodes).',
     'exhaustive lattice enumeration against an extended-precision reference',
     'E2',
@@ -172,7 +172,7 @@ check(
     'C10',
     'exploration',
     'Real multi-level steps are loaded with the oracle collocation solution and driven through the real IT_DOWN / IT_COARSE / IT_UP / IT_FINE stages (fixed point), restricted on basis inputs (coarse defect = restricted fine defect) and probed for their one-iteration map '
-    '(= oracle multigrid-in-time matrix) over node-set pairs/triples, all Lagrange transfer orders, FFT and identity transfers, 14 linear and nonlinear problems, 2 and 3 levels, both prolongation modes.',
+    '(= oracle multigrid-in-time matrix) over node-set pairs/triples, all Lagrange transfer orders, FFT and identity transfers, 14 linear and nonlinear problems, 2 and 3 levels, both prolongation modes; in real multi-step runs the defect identity is evaluated after every restriction.',
     'Trusted: vf/oracle/colloc.py (own Newton for nonlinear problems with transcribed right-hand sides). BaseTransfer_mass not covered (needs FEniCS).',
     'basis-exhaustive enumeration over a configuration lattice against an independent reference model',
     'E2',
@@ -182,7 +182,7 @@ check(
     'C11',
     'exploration',
     'Every ordered node-count pair 1..9 in all 24 families plus cross-family pairs (Pcoll/Rcoll entrywise vs exact Lagrange matrices), every 1D interpolation/restriction matrix for periodic 2^k and Dirichlet 2^k-1 grids, orders 2..8, nested on/off, in exact Fraction arithmetic, '
-    'mesh / imex_mesh / comp2_mesh transfers on every unit vector vs Kronecker products, FFT transfers on every mode and unit vector, NoCoarse identities.',
+    'mesh / imex_mesh / comp2_mesh transfers on every unit vector vs Kronecker products (square and rectangular boxes, any-size stand-ins), FFT transfers on every mode and unit vector, NoCoarse identities.',
     'Trusted: fractions.Fraction / mpmath oracles in vf/oracle/interp.py. Refinement ratio 2 only; ncomp problems through stand-ins (mpi4py-fft absent).',
     'exhaustive lattice and basis enumeration against an exact-arithmetic reference',
     'E2',
@@ -204,7 +204,7 @@ check(
     'C13',
     'exploration',
     'Every operation sequence up to depth 3 (thorough 4) over the operation alphabet x initial aliasing patterns for every data type x shape x dtype is compared with a value-semantics interpreter with explicit buffers; abs() against the max-norm axioms on a value alphabet; '
-    'run level: for a lattice of sweeper x controller combinations the caller\'s u0 and every logged / returned solution stay bitwise unchanged.',
+    'run level: for a lattice of sweeper x controller combinations the caller\'s u0 and every logged / returned solution stay bitwise unchanged (two runs, two blocks); component views of sliced meshes; copies (same class and across classes) own their storage.',
     'Trusted: the reference interpreter in vf/oracle/valuesem.py.',
     'breadth-first exhaustive enumeration of operation sequences against a reference model',
     'E2',
@@ -214,7 +214,7 @@ check(
     'C15',
     'exploration',
     'Complete lattice n_steps 1..16 x alpha over ten decades and 1: weighted transforms inverse to each other and diagonalising the alpha-circulant matrix with the closed-form factors, factors recovered from get_G_inv_matrix for M 1..5; QDiagonalization sweepers and one it_ParaDiag iteration probed on a basis against '
-    'dense solves; converged ParaDiag runs against sequential collocation stepping.',
+    'dense solves (default and three further collocation rules, built after a twin); converged ParaDiag runs against sequential collocation stepping, continued by a second run, a run after a step-size change, restarts from every slot, negative time windows.',
     'Trusted: vf/oracle/paradiag.py (mpmath closed forms, exact rational Q, dense numpy solves). Linear problems only, as the property says.',
     'exhaustive lattice and basis enumeration against an independent closed-form / dense reference',
     'E2',
@@ -224,7 +224,7 @@ check(
     'C16',
     'fault_enumeration',
     'Every operation history up to length 2 on the full dtype x nVar x grid lattice (up to 5-6 on selected configurations) is replayed with bit-exact comparison through all readers and in a fresh process; for every append and for header creation every byte prefix is recovered, checked, appended to and read again; '
-    'the block decomposition is checked for exact cover on the complete nProcs x grid lattice; LogToFile resume into files torn at every byte.',
+    'the block decomposition is checked for exact cover on the complete nProcs x grid lattice (fresh objects per rank and one object asked for every rank); LogToFile resume into files torn at every byte; files beyond 2**31 / 2**32 bytes (sparse) through every handle kind.',
     'Trusted: vf/oracle/fieldfile.py (list-of-records model). One crash per history; the MPI-IO branch is not simulated.',
     'exhaustive crash-point enumeration over recorded write histories with recovery and continuation',
     'E4',
@@ -234,7 +234,7 @@ check(
     'C20',
     'exploration',
     'Every description of the grammar with list/scalar shapes within the stated ball is built and its hierarchy compared with the distribution rule; every member of the single-fault table applied to each valid base must be rejected at construction or first run; every subset of a pool of user-addable convergence controllers '
-    'is instantiated once, ordered by control_order, with user parameters overriding defaults.',
+    'is instantiated once, ordered by control_order (order array and observed call order of every callback loop), with user parameters overriding defaults; per-level transfer entries (part D); read-only declarations of every importable problem class recorded at the registration call (part E).',
     'Trusted: the fault table only demands rejection of what the property statement lists and where the faulty entry is consulted.',
     'exhaustive enumeration over a description grammar and a single-fault table',
     'E2',
